@@ -268,7 +268,7 @@ Proof.
   - apply Ok_inj in Hb. subst b. destruct w; simpl. auto.
 Qed.
 
-(* emissions: everything but the flag word is framed unconditionally ... *)
+(* emissions: rate, mint, remaining amount and the two emissions bits of the flag word *)
 Lemma em_transfer_inv w a w' :
   em_transfer w a = Ok w' -> px_bank w' = px_bank w /\ outside_emissions w' = outside_emissions w.
 Proof.
@@ -278,101 +278,102 @@ Qed.
 Definition is_emissions_ix (ix : pix) : bool :=
   match ix with PSetupEmissions _ _ _ _ | PUpdateEmissions _ _ _ _ _ => true | _ => false end.
 
-Theorem emissions_admin_frame_modulo_flags g signer w ix w' :
+Lemma override_emissions_inv flags x f :
+  override_emissions_flag flags x = Ok f ->
+  Z.land x EMISSION_FLAGS = x /\ Z.ldiff f EMISSION_FLAGS = Z.ldiff flags EMISSION_FLAGS /\
+  (forall a, Z.land EMISSION_FLAGS a = 0 -> Z.land flags a = a -> Z.land f a = a).
+Proof.
+  unfold override_emissions_flag. destruct (Z.land x EMISSION_FLAGS =? x) eqn:E; [|discriminate].
+  intros H. apply Ok_inj in H. subst f. apply Z.eqb_eq in E. split; [exact E|]. split.
+  - rewrite (ldiff_lor_within _ _ _ E). apply ldiff_ldiff_within. reflexivity.
+  - intros a Ha Hf. apply land_lor_keeps. apply land_ldiff_disjoint; assumption.
+Qed.
+
+Lemma erase_emissions_intro b f' r rm mt :
+  Z.ldiff f' EMISSION_FLAGS = Z.ldiff (pb_flags b) EMISSION_FLAGS ->
+  erase_emissions (mkPB (mkCBank (cb_cfg (pb_c b)) f' (cb_emode (pb_c b))) (pb_osetup b) (pb_fixed_price b) r rm mt (pb_rest b))
+  = erase_emissions b.
+Proof.
+  destruct b as [[c f e] os fp r0 rm0 mt0 rest].
+  unfold erase_emissions, erase_emissions_fields, erase_flag_bits, with_flags, with_c, pb_flags.
+  cbn [pb_c cb_flags cb_cfg cb_emode pb_osetup pb_fixed_price pb_em_rate pb_em_remaining pb_em_mint pb_rest].
+  intros ->. reflexivity.
+Qed.
+
+(* what an emissions instruction does to the bank: the flag word keeps every non-emissions bit *)
+Lemma emissions_ix_bank g signer w ix w' :
   is_emissions_ix ix = true -> pstep g signer w ix = Ok w' ->
-  signer = REmissionsAdmin /\ erase_emissions_and_flags (px_bank w') = erase_emissions_and_flags (px_bank w) /\
-  outside_emissions w' = outside_emissions w.
+  signer = REmissionsAdmin /\ outside_emissions w' = outside_emissions w /\
+  exists f' r rm mt,
+    px_bank w' = mkPB (mkCBank (cb_cfg (pb_c (px_bank w))) f' (cb_emode (pb_c (px_bank w)))) (pb_osetup (px_bank w))
+                      (pb_fixed_price (px_bank w)) r rm mt (pb_rest (px_bank w)) /\
+    Z.ldiff f' EMISSION_FLAGS = Z.ldiff (pb_flags (px_bank w)) EMISSION_FLAGS /\
+    (forall a, Z.land EMISSION_FLAGS a = 0 -> Z.land (pb_flags (px_bank w)) a = a -> Z.land f' a = a).
 Proof.
   destruct ix; simpl; try discriminate; intros _ H.
   - unfold pstep in H. apply bind_ok in H as (u & Hr & H). apply require_role_inv in Hr. split; [exact Hr|].
     unfold ix_setup_emissions in H.
-    apply bind_ok in H as (u1 & _ & H). apply bind_ok in H as (f & _ & H).
-    apply em_transfer_inv in H as (Hb & Ho). rewrite Hb, Ho. split; reflexivity.
+    apply bind_ok in H as (u1 & _ & H). apply bind_ok in H as (f & Hf & H).
+    apply em_transfer_inv in H as (Hb & Ho). split; [rewrite Ho; reflexivity|].
+    apply override_emissions_inv in Hf as (_ & Hd & Hk).
+    exists f, rate, (of_int total), mint. split; [rewrite Hb; reflexivity|]. split; assumption.
   - unfold pstep in H. apply bind_ok in H as (u0 & _ & H).
     apply bind_ok in H as (u & Hr & H). apply require_role_inv in Hr. split; [exact Hr|].
     unfold ix_update_emissions in H.
     apply bind_ok in H as (u1 & _ & H). apply bind_ok in H as (u2 & _ & H).
+    apply bind_ok in H as (f & Hf & H).
+    assert (Hfl : Z.ldiff f EMISSION_FLAGS = Z.ldiff (pb_flags (px_bank w)) EMISSION_FLAGS /\
+                  (forall a, Z.land EMISSION_FLAGS a = 0 -> Z.land (pb_flags (px_bank w)) a = a -> Z.land f a = a)).
+    { destruct oflags as [x|].
+      - apply bind_ok in Hf as (u3 & _ & Hf). apply override_emissions_inv in Hf as (_ & Hd & Hk). split; assumption.
+      - apply Ok_inj in Hf. subst f. split; [reflexivity | intros a _ Ha; exact Ha]. }
+    destruct Hfl as (Hd & Hk).
     destruct oadd as [a|].
-    + apply bind_ok in H as (rem & _ & H). apply em_transfer_inv in H as (Hb & Ho). rewrite Hb, Ho. split; reflexivity.
-    + apply Ok_inj in H. subst w'. split; reflexivity.
+    + apply bind_ok in H as (rem & _ & H). apply em_transfer_inv in H as (Hb & Ho). split; [rewrite Ho; reflexivity|].
+      eexists f, _, rem, _. split; [rewrite Hb; reflexivity|]. split; assumption.
+    + apply Ok_inj in H. subst w'. split; [reflexivity|].
+      eexists f, _, _, _. split; [reflexivity|]. split; assumption.
 Qed.
 
-(* ... and the flag word when the word written agrees with the bank's non-emissions bits *)
-Definition keeps_foreign_flags (b : pbank) (ix : pix) : Prop :=
-  match ix with
-  | PSetupEmissions _ _ _ _ => Z.ldiff (pb_flags b) EMISSION_FLAGS = 0
-  | PUpdateEmissions _ _ (Some x) _ _ => Z.ldiff x EMISSION_FLAGS = Z.ldiff (pb_flags b) EMISSION_FLAGS
-  | _ => True
-  end.
-
-Lemma erase_emissions_eq b b' :
-  erase_emissions_and_flags b' = erase_emissions_and_flags b ->
-  Z.ldiff (pb_flags b') EMISSION_FLAGS = Z.ldiff (pb_flags b) EMISSION_FLAGS ->
-  erase_emissions b' = erase_emissions b.
+Theorem emissions_admin_frame g signer w ix w' :
+  is_emissions_ix ix = true -> pstep g signer w ix = Ok w' ->
+  signer = REmissionsAdmin /\ erase_emissions (px_bank w') = erase_emissions (px_bank w) /\
+  outside_emissions w' = outside_emissions w.
 Proof.
-  destruct b as [[c f e] os fp r rm mt rest], b' as [[c' f' e'] os' fp' r' rm' mt' rest'].
-  unfold erase_emissions_and_flags, erase_emissions, erase_emissions_fields, erase_flag_bits, with_flags, with_c, pb_flags.
-  cbn [pb_c cb_flags cb_cfg cb_emode pb_osetup pb_fixed_price pb_em_rate pb_em_remaining pb_em_mint pb_rest].
-  intros H Hf. injection H as -> -> -> -> ->. rewrite Hf. reflexivity.
+  intros Hix H. destruct (emissions_ix_bank _ _ _ _ _ Hix H) as (Hs & Ho & f' & r & rm & mt & Hb & Hd & _).
+  split; [exact Hs|]. split; [|exact Ho]. rewrite Hb. apply erase_emissions_intro. exact Hd.
 Qed.
 
-Theorem emissions_admin_frame_restricted g signer w ix w' :
-  is_emissions_ix ix = true -> keeps_foreign_flags (px_bank w) ix -> pstep g signer w ix = Ok w' ->
-  erase_emissions (px_bank w') = erase_emissions (px_bank w).
+(* a flag word with any bit outside EMISSION_FLAGS is refused *)
+Theorem emissions_foreign_flags_rejected g signer w w' :
+  (forall ac mint x orate oadd, pstep g signer w (PUpdateEmissions ac mint (Some x) orate oadd) = Ok w' -> Z.land x EMISSION_FLAGS = x) /\
+  (forall mint x rate total, pstep g signer w (PSetupEmissions mint x rate total) = Ok w' -> Z.land x EMISSION_FLAGS = x).
 Proof.
-  intros Hix Hk H.
-  destruct (emissions_admin_frame_modulo_flags _ _ _ _ _ Hix H) as (_ & He & _).
-  apply erase_emissions_eq; [exact He|].
-  destruct ix; simpl in Hix; try discriminate; simpl in Hk.
-  - unfold pstep in H. apply bind_ok in H as (u & _ & H). unfold ix_setup_emissions in H.
-    apply bind_ok in H as (u1 & _ & H). apply bind_ok in H as (f & Hf & H).
-    apply em_transfer_inv in H as (Hb & _). rewrite Hb. unfold pb_flags at 1. cbn [px_bank pb_c cb_flags].
-    unfold override_emissions_flag in Hf. destruct (Z.land flags EMISSION_FLAGS =? flags) eqn:E; [|discriminate].
-    apply Ok_inj in Hf. subst f. rewrite Hk. apply ldiff_of_submask. lia.
-  - unfold pstep in H. apply bind_ok in H as (u0 & _ & H). apply bind_ok in H as (u & _ & H).
-    unfold ix_update_emissions in H.
-    apply bind_ok in H as (u1 & _ & H). apply bind_ok in H as (u2 & _ & H).
-    assert (Hfl : Z.ldiff (match oflags with Some x => x | None => pb_flags (px_bank w) end) EMISSION_FLAGS
-                  = Z.ldiff (pb_flags (px_bank w)) EMISSION_FLAGS) by (destruct oflags; [exact Hk | reflexivity]).
-    destruct oadd as [a|].
-    + apply bind_ok in H as (rem & _ & H). apply em_transfer_inv in H as (Hb & _). rewrite Hb.
-      unfold pb_flags at 1. cbn [px_bank set_bank pb_c cb_flags]. exact Hfl.
-    + apply Ok_inj in H. subst w'. unfold pb_flags at 1. cbn [px_bank set_bank pb_c cb_flags]. exact Hfl.
+  split.
+  - intros ac mint x orate oadd H. unfold pstep in H. apply bind_ok in H as (u0 & _ & H). apply bind_ok in H as (u & _ & H).
+    unfold ix_update_emissions in H. apply bind_ok in H as (u1 & _ & H). apply bind_ok in H as (u2 & _ & H).
+    apply bind_ok in H as (f & Hf & _). apply bind_ok in Hf as (u3 & Hc & _). apply check_inv in Hc. lia.
+  - intros mint x rate total H. unfold pstep in H. apply bind_ok in H as (u & _ & H).
+    unfold ix_setup_emissions in H. apply bind_ok in H as (u1 & _ & H). apply bind_ok in H as (f & Hf & _).
+    apply override_emissions_inv in Hf as (Hx & _). exact Hx.
 Qed.
 
-(* ---------------------------------------------------------------- witnesses of the two findings *)
+(* the update with a foreign bit fails with IllegalFlag once the accounts and the bank's mint are accepted *)
+Lemma emissions_update_illegal_flag g w mint x orate oadd :
+  pb_em_mint (px_bank w) <> 0 -> pb_em_mint (px_bank w) = mint -> Z.land x EMISSION_FLAGS <> x ->
+  pstep g REmissionsAdmin w (PUpdateEmissions (Ok tt) mint (Some x) orate oadd) = Err (E E_IllegalFlag).
+Proof.
+  intros Hm He Hx. unfold pstep, require_role. cbn [bind role_eqb check]. unfold ix_update_emissions.
+  replace (negb (pb_em_mint (px_bank w) =? 0)) with true by lia.
+  replace (pb_em_mint (px_bank w) =? mint) with true by lia. cbn [check bind].
+  replace (Z.land x EMISSION_FLAGS =? x) with false by lia. reflexivity.
+Qed.
+
 Definition wit_cfg : bank_cfg := mkBC 0 0 ONE ONE 0 0 dummy_ir 0 OP_OPERATIONAL 0 0 0 60 0 0.
 Definition wit_bank (flags em_mint : Z) : pbank := mkPB (mkCBank wit_cfg flags es_zeroed) 3 0 0 0 em_mint 0.
 Definition wit_world (flags em_mint : Z) (vault : option Z) : pworld :=
   mkPX (wit_bank flags em_mint) (mkPM [] 0 [] 0) 1000 vault 0 0 0 0.
 Definition wit_caps : caps := mkCaps 0 0.
-
-(* F1: the emissions admin clears FREEZE_SETTINGS and CLOSE_ENABLED, and sets FREEZE_SETTINGS,
-   PERMISSIONLESS_BAD_DEBT_SETTLEMENT and both TOKENLESS flags *)
-Theorem emissions_update_foreign_flags_refuted :
-  (exists w w', pstep wit_caps REmissionsAdmin w (PUpdateEmissions (Ok tt) 1 (Some 0) None None) = Ok w' /\
-     pb_flags (px_bank w) = Z.lor FREEZE_SETTINGS CLOSE_ENABLED_FLAG /\ pb_frozen (px_bank w) = true /\
-     pb_frozen (px_bank w') = false /\ flag_set (pb_flags (px_bank w')) CLOSE_ENABLED_FLAG = false) /\
-  (exists w w', pstep wit_caps REmissionsAdmin w (PUpdateEmissions (Ok tt) 1 (Some 127) None None) = Ok w' /\
-     pb_flags (px_bank w) = CLOSE_ENABLED_FLAG /\
-     pb_frozen (px_bank w') = true /\
-     flag_set (pb_flags (px_bank w')) PERMISSIONLESS_BAD_DEBT_SETTLEMENT_FLAG = true /\
-     flag_set (pb_flags (px_bank w')) TOKENLESS_REPAYMENTS_ALLOWED = true /\
-     flag_set (pb_flags (px_bank w')) TOKENLESS_REPAYMENTS_COMPLETE = true).
-Proof.
-  split.
-  - exists (wit_world 24 1 (Some 0)). eexists. split; [vm_compute; reflexivity|]. vm_compute. auto.
-  - exists (wit_world 16 1 (Some 0)). eexists. split; [vm_compute; reflexivity|]. vm_compute. auto 10.
-Qed.
-
-(* F2: setting up emissions replaces the word: the freeze and CLOSE_ENABLED are gone *)
-Theorem emissions_setup_clears_flags_refuted :
-  exists w w', pstep wit_caps REmissionsAdmin w (PSetupEmissions 1 EMISSIONS_FLAG_LENDING_ACTIVE 1000 500) = Ok w' /\
-     pb_flags (px_bank w) = Z.lor FREEZE_SETTINGS CLOSE_ENABLED_FLAG /\ pb_frozen (px_bank w) = true /\
-     pb_flags (px_bank w') = EMISSIONS_FLAG_LENDING_ACTIVE /\ pb_frozen (px_bank w') = false.
-Proof.
-  exists (wit_world 24 0 None). eexists. split; [vm_compute; reflexivity|]. vm_compute. auto.
-Qed.
 
 (* ---------------------------------------------------------------- the group admin's configure: only its three flag bits *)
 Theorem configure_touches_only_its_three_flags g signer w o w' :
@@ -415,14 +416,16 @@ Proof.
     unfold ix_set_fixed_price, pb_frozen in Hb. rewrite Hfr in Hb. discriminate.
 Qed.
 
-(* the flag word after one instruction, for every instruction that does not write it wholesale *)
+(* the freeze bit after one instruction, whatever the instruction, its arguments and its signer *)
 Lemma pstep_keeps_freeze g signer w ix w' :
-  pb_frozen (px_bank w) = true -> writes_flags_without_freeze ix = false -> pstep g signer w ix = Ok w' ->
-  pb_frozen (px_bank w') = true.
+  pb_frozen (px_bank w) = true -> pstep g signer w ix = Ok w' -> pb_frozen (px_bank w') = true.
 Proof.
-  intros Hfr Hix H. pose proof Hfr as Hfr0. apply pb_frozen_iff in Hfr.
+  intros Hfr H. pose proof Hfr as Hfr0. apply pb_frozen_iff in Hfr.
   apply pb_frozen_iff.
-  destruct ix; unfold pstep in H.
+  assert (Hem : is_emissions_ix ix = true -> Z.land (pb_flags (px_bank w')) FREEZE_SETTINGS = FREEZE_SETTINGS).
+  { intros Hix. destruct (emissions_ix_bank _ _ _ _ _ Hix H) as (_ & _ & f' & r & rm & mt & Hb & _ & Hk).
+    rewrite Hb. unfold pb_flags at 1. cbn [pb_c cb_flags]. apply Hk; [reflexivity | exact Hfr]. }
+  destruct ix; try (apply Hem; reflexivity); clear Hem; unfold pstep in H.
   - apply bind_ok in H as (u & _ & H). apply lift_c_inv in H as (c & Hc & ->).
     apply (configure_frozen _ _ _ _ Hfr0) in Hc as (Hf & _). unfold pb_flags in *. cbn [px_bank set_bank with_c pb_c]. rewrite Hf. exact Hfr.
   - apply bind_ok in H as (u & _ & H). apply lift_c_inv in H as (c & Hc & ->).
@@ -437,16 +440,6 @@ Proof.
     unfold ix_configure_oracle in Hb. rewrite Hfr0 in Hb. discriminate.
   - apply bind_ok in H as (u & _ & H). apply lift_b_inv in H as (b & Hb & _).
     unfold ix_set_fixed_price in Hb. rewrite Hfr0 in Hb. discriminate.
-  - simpl in Hix. discriminate.
-  - apply bind_ok in H as (u0 & _ & H). apply bind_ok in H as (u & _ & H).
-    unfold ix_update_emissions in H.
-    apply bind_ok in H as (u1 & _ & H). apply bind_ok in H as (u2 & _ & H).
-    assert (Hfl : Z.land (match oflags with Some x => x | None => pb_flags (px_bank w) end) FREEZE_SETTINGS = FREEZE_SETTINGS).
-    { destruct oflags as [x|]; [|exact Hfr]. simpl in Hix. apply Bool.negb_false_iff in Hix. apply flag_set_iff in Hix. exact Hix. }
-    destruct oadd as [a|].
-    + apply bind_ok in H as (rem & _ & H). apply em_transfer_inv in H as (Hb & _). rewrite Hb.
-      unfold pb_flags at 1. cbn [px_bank set_bank pb_c cb_flags]. exact Hfl.
-    + apply Ok_inj in H. subst w'. unfold pb_flags at 1. cbn [px_bank set_bank pb_c cb_flags]. exact Hfl.
   - apply bind_ok in H as (u & _ & H). apply bind_ok in H as (m & _ & H). apply Ok_inj in H. subst w'. exact Hfr.
   - apply bind_ok in H as (u & _ & H). apply lift_b_inv in H as (b & Hb & ->).
     unfold ix_force_tokenless_complete in Hb.
@@ -460,25 +453,14 @@ Proof.
     apply propagate_flags in Hc as (Hf & _). unfold pb_flags in *. cbn [px_bank set_bank with_c pb_c]. rewrite Hf. exact Hfr.
 Qed.
 
-(* nobody can lift the freeze: any sequence of instructions by any signers *)
-Theorem freeze_sticky_restricted g w l :
-  pb_frozen (px_bank w) = true ->
-  (forall s ix, In (s, ix) l -> writes_flags_without_freeze ix = false) ->
-  pb_frozen (px_bank (prun g w l)) = true.
+(* nobody can lift the freeze: any sequence of instructions, any arguments, any signers *)
+Theorem freeze_sticky g w l :
+  pb_frozen (px_bank w) = true -> pb_frozen (px_bank (prun g w l)) = true.
 Proof.
-  revert w. induction l as [|[s ix] rest IH]; intros w Hfr Hall; [exact Hfr|].
+  revert w. induction l as [|[s ix] rest IH]; intros w Hfr; [exact Hfr|].
   cbn [prun]. apply IH.
-  - destruct (pstep g s w ix) as [w'|e] eqn:E; [|exact Hfr].
-    apply (pstep_keeps_freeze _ _ _ _ _ Hfr (Hall s ix (or_introl eq_refl)) E).
-  - intros s' ix' Hin. apply (Hall s' ix'). right. exact Hin.
-Qed.
-
-Theorem freeze_sticky_refuted :
-  exists g w l, pb_frozen (px_bank w) = true /\ pb_frozen (px_bank (prun g w l)) = false /\
-                (l = [(REmissionsAdmin, PSetupEmissions 1 0 0 0)] \/ exists x, l = [(REmissionsAdmin, PUpdateEmissions (Ok tt) 1 (Some x) None None)]).
-Proof.
-  exists wit_caps, (wit_world 24 0 None), [(REmissionsAdmin, PSetupEmissions 1 0 0 0)].
-  split; [vm_compute; reflexivity|]. split; [vm_compute; reflexivity|]. left. reflexivity.
+  destruct (pstep g s w ix) as [w'|e] eqn:E; [|exact Hfr].
+  apply (pstep_keeps_freeze _ _ _ _ _ Hfr E).
 Qed.
 
 (* every instruction checks its signer *)
